@@ -234,6 +234,10 @@ class Rig:
                 routes = self.api.api_flow(cmd)
             elif kind == 'vpls':
                 routes = self.api.api_vpls(cmd)
+            elif kind == 'v4':
+                routes = self.api.api_announce_v4(cmd)
+            elif kind == 'v6':
+                routes = self.api.api_announce_v6(cmd)
             else:
                 raise AssertionError(kind)
         return routes
@@ -247,7 +251,7 @@ class Rig:
         r.configuration.announce_route.reset_mock()
         captured: list = []
         r.asynchronous.schedule = lambda service, command, coro: captured.append(coro)
-        fn = {'route': api_announce.announce_route, 'attributes': api_announce.announce_attributes, 'flow': api_announce.announce_flow, 'flow6': api_announce.announce_flow, 'vpls': api_announce.announce_vpls}[kind]
+        fn = {'route': api_announce.announce_route, 'attributes': api_announce.announce_attributes, 'flow': api_announce.announce_flow, 'flow6': api_announce.announce_flow, 'vpls': api_announce.announce_vpls, 'v4': api_announce.announce_ipv4, 'v6': api_announce.announce_ipv6}[kind]
         try:
             with watchdog(self.limit(text)) as w:
                 fn(self.api, r, 'svc', [], text, False, 'announce')
@@ -768,6 +772,9 @@ FIELDS: list[FieldSpec] = [
     FieldSpec('mask4', 'attributes', 'attributes next-hop 1.2.3.4 med 5 nlri 0.0.0.0/{v}', w_mask, _rx(r'0\.0\.0\.0/(\d+)'), note='attributes-nlri'),
     FieldSpec('med', 'attributes', 'attributes next-hop 1.2.3.4 med {v} nlri 10.0.0.0/24 10.0.1.0/24', w_attr(4, 0, 4), _rx(r' med (\d+)'), note='attributes'),
     FieldSpec('communityLow', 'attributes', 'attributes next-hop 1.2.3.4 community [ 1:{v} ] nlri 10.0.0.0/24', w_attr(8, 2, 4), _rx(r' community \[? ?\d+:(\d+)'), note='attributes'),
+    # an AS number inside an AS_SET (behind a sequence of 2-octet numbers, and as the whole path): the same field
+    FieldSpec('asPathAsn', 'route', R + 'as-path [ 64999 64998 ] ( 64512 {v} 64513 )', w_aspath, _rx(r'64512 (\d+) 64513'), sess=True, note='as-set'),
+    FieldSpec('asPathAsn', 'route', R + 'as-path ( 64512 {v} 64513 )', w_aspath, _rx(r'64512 (\d+) 64513'), sess=True, note='as-set-only'),
     FieldSpec('asPathAsn', 'attributes', 'attributes next-hop 1.2.3.4 as-path [ 64512 {v} 64513 ] nlri 10.0.0.0/24', w_aspath, _rx(r'as-path [(\[] (?:\d+ )*?64512 (\d+) 64513'), sess=True, note='attributes'),
     FieldSpec('vplsEndpoint', 'vpls', VP.format(e='{v}', b=10, o=1, s=8), w_vpls(0, 2), _rx(r'endpoint (\d+)')),
     FieldSpec('vplsOffset', 'vpls', VP.format(e=5, b=10, o='{v}', s=8), w_vpls(2, 4), _rx(r'offset (\d+)')),
